@@ -433,6 +433,10 @@ type connectStreamingClientConn struct {
 	unmarshaler      connectStreamingUnmarshaler
 	responseHeader   http.Header
 	responseTrailer  http.Header
+	// trailersRead is set once the end-of-stream metadata has been merged into
+	// responseTrailer: a caller may call Receive again after the stream has
+	// ended, and must not find every value once more for each call.
+	trailersRead bool
 }
 
 func (cc *connectStreamingClientConn) Spec() Spec {
@@ -461,7 +465,10 @@ func (cc *connectStreamingClientConn) Receive(msg any) error {
 		return nil
 	}
 	// See if the server sent an explicit error in the end-of-stream message.
-	mergeHeaders(cc.responseTrailer, cc.unmarshaler.Trailer())
+	if !cc.trailersRead && cc.unmarshaler.Trailer() != nil {
+		cc.trailersRead = true
+		mergeHeaders(cc.responseTrailer, cc.unmarshaler.Trailer())
+	}
 	if serverErr := cc.unmarshaler.EndStreamError(); serverErr != nil {
 		// This is expected from a protocol perspective, but receiving an
 		// end-of-stream message means that we're _not_ getting a regular message.
